@@ -19,6 +19,7 @@ import (
 	"net/http"
 	"sort"
 	"strings"
+	"sync"
 
 	"github.com/quay/claircore"
 	"github.com/quay/claircore/alpine"
@@ -39,6 +40,7 @@ type resp struct {
 }
 
 type world struct {
+	mu     sync.Mutex
 	routes map[string]resp // "host/path"
 	hits   map[string]int
 }
@@ -53,13 +55,17 @@ func (w *world) put(key string, status int, ctype string, body []byte, extra ...
 	for i := 0; i+1 < len(extra); i += 2 {
 		h[extra[i]] = extra[i+1]
 	}
+	w.mu.Lock()
 	w.routes[key] = resp{status: status, header: h, body: body}
+	w.mu.Unlock()
 }
 
 func (w *world) RoundTrip(req *http.Request) (*http.Response, error) {
 	key := req.URL.Host + req.URL.Path
+	w.mu.Lock()
 	w.hits[key]++
 	r, ok := w.routes[key]
+	w.mu.Unlock()
 	if !ok {
 		r = resp{status: 404}
 	}
